@@ -30,19 +30,25 @@ def revcompText (seq : List Nat) : Status × List Nat :=
   let st := if seq.all (fun c => (compChar c).isSome) then Status.ok else Status.einval
   (st, (seq.map fun c => (compChar c).getD 78).reverse)
 
-/-- what the harness op `sqroundtrip` prints: CreateFrom(text) → Digitize → [ReverseComplement] → Textize -/
-def roundtripLine (a : Alphabet) (txt : List Nat) (rc : Bool) (hx : List Nat → String) : String :=
+/-- what the harness op `sqroundtrip` prints: CreateFrom(text [, ss]) → Digitize [→ Digitize again on the same object]
+    → [ReverseComplement] → Textize. `ss` = secondary-structure annotation (shifted to 1..n by Digitize and back by Textize,
+    dropped by ReverseComplement); coordinates `start = 1, end = n` are swapped by ReverseComplement. A rejected Digitize
+    leaves the object in text mode, untouched; the retry is rejected again. A second Digitize of a digital object is a no-op. -/
+def roundtripLine (a : Alphabet) (txt : List Nat) (rc : Bool) (hx : List Nat → String) (ss : Option (List Nat) := none)
+    (retry : Bool := false) : String :=
+  let ssS := fun (x : Option (List Nat)) => match x with | some v => hx v | none => "null"
+  let n := txt.length
   match sqDigitize a txt with
-  | .error st => s!"dig={st.name} seq={hx txt}"
+  | .error st => s!"dig={st.name}{if retry then s!" dig2={st.name}" else ""} seq={hx txt} ss={ssS ss} se=1,{n}"
   | .ok d =>
-    let n := txt.length
     let r : Except Status (Option (List Nat)) := if rc then a.revcomp d n else .ok (some d)
+    let pre := s!"dig=ok{if retry then " dig2=ok" else ""} dsq={hx d}"
     match r with
-    | .error e => s!"dig=ok dsq={hx d} exception {e.name}"
+    | .error e => s!"{pre} exception {e.name}"
     | .ok none => "fault"
     | .ok (some d') =>
       match a.textize d' n with
       | none => "fault"
-      | some t => s!"dig=ok dsq={hx d} rc=ok txt=ok seq={hx t}"
+      | some t => s!"{pre} rc=ok txt=ok seq={hx t} ss={ssS (if rc then none else ss)} se={if rc then s!"{n},1" else s!"1,{n}"}"
 
 end EaselModel.Alphabet.Sq
